@@ -34,8 +34,9 @@ ASSUMPTIONS = [
 REQUIRED_STATS = ['c05_blocks_checked', 'c05_failing_blocks']
 
 TIMES = [0, 0.5, 1]
-KINDS = ['err', 'key', 'lookup', 'assert', 'eq', 'eq', 'falsy']
-ALL_KINDS = ['err', 'err', 'key', 'index', 'lookup', 'assert', 'exit', 'kbd', 'eq', 'eq', 'falsy']
+KINDS = ['err', 'key', 'lookup', 'assert', 'eq', 'eq', 'falsy', 'stream', 'unavailable']
+ALL_KINDS = ['err', 'err', 'key', 'index', 'lookup', 'assert', 'exit', 'kbd', 'eq', 'eq', 'falsy',
+             'stream', 'unavailable', 'interval']
 FATES = ([('ok', t) for t in TIMES] + [('fail', t, k) for t in TIMES for k in KINDS]
          + [('forever',)])
 ENUM = len(FATES) ** 4
